@@ -313,17 +313,28 @@ pub fn c29(out: &mut Out, ex: &mut Exec, seed: u64, thorough: bool) {
                 pos += len + rng.below(50) as u32 * rng.below(2) as u32;
             }
             if blocks.is_empty() { continue; }
-            v.push(format!("sim load {}", blocks.join(";")));
+            if rng.chance(1, 3) {
+                // images no assembler produces (read from an object file): blocks in the I/O page, reaching xFFFF, wrapping
+                let start: u32 = *rng.pick(&[0xFDF8u32, 0xFE00, 0xFFF0, 0xFFFB, 0xFFFE, 0xFFFF]);
+                let len = 1 + rng.below(24) as u32;
+                let cells: Vec<String> = (0..len).map(|_| if rng.chance(1, 5) { "_".to_string() } else { hex16(rng.u16()) }).collect();
+                let mut all = blocks.clone();
+                all.push(format!("{:04x}:{}", start, cells.join(",")));
+                out.hist.hit(if start + len > 0x10000 { "raw_block_wraps" } else if start + len == 0x10000 { "raw_block_reaches_xffff" } else { "raw_block_high" });
+                v.push(format!("sim loadraw {}", all.join(";")));
+            } else {
+                v.push(format!("sim load {}", blocks.join(";")));
+            }
             v.push("sim memhash".into()); v.push("sim state".into());
             if rng.chance(1, 3) { v.push(format!("sim run {}", 1 + rng.below(30))); v.push("sim memhash".into()); }
         }
         let r = run_lines(out, ex, &v);
         out.evaluations += v.len() as i64;
-        for x in &r { if x.starts_with("asmfail") || x.starts_with("panic") { out.fail(out.lines, format!("load failed: {x}"), v.join("\n")); } }
+        for x in &r { if x.starts_with("asmfail") || x.starts_with("panic") || x.starts_with("bad-obj") { out.fail(out.lines, format!("load failed: {x}"), v.join("\n")); } }
         if seen.insert(crate::simx::fnv(v.iter().flat_map(|l| l.bytes().map(|b| b as u64)))) { out.nontrivial += 1; }
         if out.samples.len() < 2 { let mut s = Json::obj(); s.set("ops", Json::Arr(v.iter().map(|x| Json::s(x.chars().take(120).collect::<String>())).collect())); out.sample(s); }
     }
-    out.rule = "generated object images (1-4 disjoint blocks incl. blocks at x0000 over the OS, ending exactly at xFE00, with .blkw gaps) assembled by the real assembler from .orig/.fill/.blkw text and loaded into simulators with Known(0/xABCD/xFFFF) fill, repeatedly and after execution; full-memory hash (data+init mask of all 65536 words), registers and PC compared with the model after every load".into();
+    out.rule = "generated object images (1-4 disjoint blocks incl. blocks at x0000 over the OS, ending exactly at xFE00, with .blkw gaps) assembled by the real assembler from .orig/.fill/.blkw text — and, in a third of the loads, images no assembler produces, built through the text object format: blocks in the I/O page, reaching xFFFF or wrapping past it — loaded into simulators with Known(0/xABCD/xFFFF) fill, repeatedly and after execution; full-memory hash (data+init mask of all 65536 words), registers and PC compared with the model after every load".into();
 }
 
 /// C30: reset after random histories.
